@@ -419,6 +419,86 @@ def calibrate():
     return out
 
 
+def live_tier(tier, seed, stats):
+    """Real sockets opened by the harness: each must appear exactly once in
+    net_connections('all') and Process().net_connections('all') with the
+    address the socket API reports, the right state, our PID and the fd."""
+    import psutil
+
+    d = tempfile.mkdtemp(prefix="psv-c11-", dir=os.environ.get("VERIF_SCRATCH"))
+    socks = []
+    try:
+        def mk(fam, typ, bind=None, listen=False):
+            s_ = socket.socket(fam, typ)
+            if bind is not None:
+                s_.bind(bind)
+            if listen:
+                s_.listen(1)
+            socks.append(s_)
+            return s_
+
+        t4 = mk(socket.AF_INET, socket.SOCK_STREAM, ("127.0.0.1", 0), True)
+        u4 = mk(socket.AF_INET, socket.SOCK_DGRAM, ("127.0.0.1", 0))
+        c4 = mk(socket.AF_INET, socket.SOCK_STREAM)
+        c4.connect(t4.getsockname())
+        acc, _ = t4.accept()
+        socks.append(acc)
+        # (an unbound, unconnected TCP socket is not in the kernel's table)
+        items = [(t4, "LISTEN"), (u4, "NONE"), (c4, "ESTABLISHED"), (acc, "ESTABLISHED")]
+        try:
+            t6 = mk(socket.AF_INET6, socket.SOCK_STREAM, ("::1", 0), True)
+            u6 = mk(socket.AF_INET6, socket.SOCK_DGRAM, ("::", 0))
+            items += [(t6, "LISTEN"), (u6, "NONE")]
+        except OSError:
+            pass
+        ux = mk(socket.AF_UNIX, socket.SOCK_STREAM, os.path.join(d, "with  two spaces"), True)
+        ua = mk(socket.AF_UNIX, socket.SOCK_DGRAM, b"\0psv live abstract")
+        un = mk(socket.AF_UNIX, socket.SOCK_SEQPACKET)
+        items += [(ux, "NONE"), (ua, "NONE"), (un, "NONE")]
+        me = os.getpid()
+        try:
+            sysw = psutil.net_connections("all")
+            mine = psutil.Process().net_connections("all")
+        except Exception as e:  # noqa: BLE001
+            stats.fail({"live": "net_connections"}, Violation("live-exception", repr(e)))
+            return
+        n = 0
+        for s_, state in items:
+            fd = s_.fileno()
+            case = {"live_socket": [int(s_.family), int(s_.type), state]}
+            if s_.family == socket.AF_UNIX:
+                nm = s_.getsockname()
+                laddr = nm if isinstance(nm, str) else ("@" + nm[1:].decode() if nm else "")
+                raddr = ""
+            else:
+                la = s_.getsockname()
+                laddr = (la[0], la[1]) if la[1] else ()
+                try:
+                    ra = s_.getpeername()
+                    raddr = (ra[0], ra[1])
+                except OSError:
+                    raddr = ()
+            want = (fd, s_.family, s_.type, laddr, raddr, state)
+            rows_p = [r for r in mine if r.fd == fd]
+            rows_s = [r for r in sysw if r.pid == me and r.fd == fd]
+            ok = (len(rows_p) == 1 and len(rows_s) == 1
+                  and tuple(rows_p[0]) == want and tuple(rows_s[0])[:6] == want)
+            if not ok:
+                stats.fail(case, Violation("live-socket", f"socket {want}: per-process rows {rows_p}, "
+                                           f"system-wide rows {rows_s}"))
+                continue
+            n += 1
+            stats.record(case, Result(["live-socket"], "live|%d|%d|%s" % (s_.family, s_.type, state)),
+                         keep_sample=(n == 1))
+        stats.notes["live_sockets_checked"] = n
+    finally:
+        for s_ in socks:
+            s_.close()
+        for nm in os.listdir(d):
+            os.unlink(os.path.join(d, nm))
+        os.rmdir(d)
+
+
 PROP = Property(
     id="C11",
     level="exploration",
@@ -437,6 +517,7 @@ PROP = Property(
     run_case=run_case,
     budgets={"quick": 12000, "thorough": 300000},
     calibrate=calibrate,
+    extra_tiers=[("live", live_tier)],
     assumptions=[
         "socket tuples (proto, family, laddr, raddr) are unique within a table "
         "(psutil returns a set of rows)",
